@@ -26,7 +26,9 @@ RULE = (
     "work a second time (same object / re-created Crop) and everything is "
     "checked again; farmer cases also hand the same constants object to the "
     "crop of a second farmer with other stored constants/resources and "
-    "compare with that farmer's direct run.  Non-trivial = N mod B != 0 or "
+    "compare with that farmer's direct run; a quarter of the grids are "
+    "numpy arrays of dtype uint8 / int16 / int64 / float32 and the settings "
+    "are compared type-exactly.  Non-trivial = N mod B != 0 or "
     "k > N or s > N.  Distinct by construction."
 )
 ASSUMPTIONS = [
@@ -44,6 +46,12 @@ def build_inputs(case):
     real, shape = case["real"], case["shape"]
     if real == "grid":
         g = crops.grid_from_shape(shape)
+        if case.get("np_dtype"):
+            # values handed over as a numpy array of a small dtype: the
+            # function receives numpy scalars of that dtype
+            import numpy as np
+            return ({a: np.array(v, dtype=case["np_dtype"]) for a, v in g},
+                    None, None)
         return {a: v for a, v in g}, None, None
     if real == "cases":
         n = shape[0]
@@ -112,6 +120,18 @@ def run_case(case):
                                   constants={**extra, **consts}, verbosity=0)
             direct = [models.canon_kw(kw) for kw in models.LOG]
             require(len(direct) == N, "harness", f"{len(direct)} != N={N}")
+            if case.get("np_dtype"):
+                def typed(kws):
+                    return collections.Counter(
+                        tuple(sorted((k, type(v).__name__,
+                                      repr(models.plain(v)))
+                                     for k, v in kw.items())) for kw in kws)
+                td = typed(models.LOG)
+                ts = typed(kw for b in batches for kw in b)
+                require(td == ts, "argument-types",
+                        lambda: f"{stage}: sown settings carry "
+                                f"{list((ts - td).elements())[:2]}, a direct "
+                                f"run passes {list((td - ts).elements())[:2]}")
             sown = [models.canon_kw(kw) for b in batches for kw in b]
             if collections.Counter(sown) != collections.Counter(direct):
                 cd, cs = collections.Counter(direct), collections.Counter(sown)
@@ -266,9 +286,13 @@ def enumerate_cases(tier, seed):
                     # object and by a re-created one; which of the twelve
                     # variants does it rotates
                     rs = [None, "same", "recreate"][(i + j + v + N) % 3]
-                    yield {"N": N, "real": real, "shape": list(shape),
-                           "spec": spec, "shuffle": sh, "where": where,
-                           "farmer": farmer, "resow": rs}
+                    c = {"N": N, "real": real, "shape": list(shape),
+                         "spec": spec, "shuffle": sh, "where": where,
+                         "farmer": farmer, "resow": rs}
+                    if real == "grid" and (i + j + v) % 4 == 0:
+                        c["np_dtype"] = ["uint8", "float32", "int64",
+                                         "int16"][(i + v + N) % 4]
+                    yield c
 
 
 PHASES = [
